@@ -10,7 +10,7 @@ engine:
 # warm the Go build cache for the native replays (test binaries of the packages the harnesses live in)
 warm:
 	-cd /repo && $(GOENV) go build ./... >/dev/null 2>&1
-	-cd /repo && $(GOENV) go test -vet=off -count=1 -run '^$$' ./pkg/state/nodepoolhealth ./pkg/scheduling ./pkg/apis/v1 >/dev/null 2>&1
+	-cd /repo && $(GOENV) go test -vet=off -count=1 -run '^$$' ./pkg/state/nodepoolhealth ./pkg/scheduling ./pkg/apis/v1 ./pkg/cloudprovider ./pkg/utils/nodepool ./pkg/controllers/state ./pkg/controllers/disruption ./pkg/controllers/provisioning/scheduling ./pkg/controllers/nodeclaim/... ./pkg/controllers/node/... >/dev/null 2>&1
 
 clean:
 	rm -rf bin/symgo replays/run-*
